@@ -20,10 +20,10 @@ def lexer_shards(ctx):
     def cfg(name, alpha, lo, hi):
         return name, "SPECIFICATION Spec\nCONSTANTS\n  Alphabet = {%s}\n  MinLen = %d\n  MaxLen = %d\nCHECK_DEADLOCK FALSE\n" % (", ".join('"%s"' % a for a in alpha), lo, hi)
     sh = [cfg("all3", ALL, 0, 3), cfg("all4", ALL, 4, 4),
-          cfg("strings", ["q", "t", "k", "n", "a", "s"], 4, 6 if q else 8),
-          cfg("comments", ["/", "*", "n", "a", "h", "s"], 4, 6 if q else 8),
-          cfg("ops", ["=", "s", "<", "-", "a", "n", "."], 4, 6 if q else 7),
-          cfg("numbers", ["1", "0", "x", "e", ".", "-", "a", "+"], 4, 5 if q else 7)]
+          cfg("strings", ["q", "t", "k", "n", "a", "s"], 4, 6 if q else 7),          # (bounds fitted so that one set of strings stays below TLC's 10^6 limit)
+          cfg("comments", ["/", "*", "n", "a", "h", "s"], 4, 6 if q else 7),
+          cfg("ops", ["=", "s", "<", "-", "a", "n", "."], 4, 6),
+          cfg("numbers", ["1", "0", "x", "e", ".", "-", "a", "+"], 4, 5 if q else 6)]
     if not q:
         sh.append(cfg("all5a", ALL[:10] + ["=", "<", "-"], 5, 5))
         sh.append(cfg("all5b", ALL[8:], 5, 5))
